@@ -9,7 +9,6 @@ import (
 	"path/filepath"
 	"reflect"
 	"regexp"
-	"sort"
 	"strings"
 
 	"github.com/cosmos/cosmos-proto/internal/verifh/vreg"
@@ -179,7 +178,8 @@ func runGen(cfg *Cfg) {
 	for _, req := range reqs {
 		name := req.FileToGenerate[0]
 		if !strings.Contains(name, "/ga/") && !strings.Contains(name, "/gb/") && !strings.Contains(name, "/gc/") && !strings.Contains(name, "/mx/") &&
-			!strings.Contains(name, "/dupa/") && !strings.Contains(name, "/dupb/") && !strings.Contains(name, "/nest/") {
+			!strings.Contains(name, "/dupa/") && !strings.Contains(name, "/dupb/") && !strings.Contains(name, "/nest/") &&
+			!strings.Contains(name, "/nm/") && !strings.Contains(name, "/nu/") {
 			continue
 		}
 		for _, f := range req.ProtoFile {
@@ -193,7 +193,7 @@ func runGen(cfg *Cfg) {
 			single[resp.File[0].GetName()] = resp.File[0].GetContent()
 		}
 	}
-	all = topoSort(all)
+	allFixed := topoSort(all)
 	perms := 8
 	if cfg.Tier == "thorough" {
 		perms = 40
@@ -206,6 +206,16 @@ func runGen(cfg *Cfg) {
 		}
 		if k%2 == 1 {
 			g = g[:1+r.Intn(len(g)-1)]
+		}
+		// proto_file in a topological order too, but not always the same one among unrelated files
+		all := allFixed
+		if k%3 != 0 {
+			sh := append([]*descriptorpb.FileDescriptorProto(nil), allFixed...)
+			for i := len(sh) - 1; i > 0; i-- {
+				j := r.Intn(i + 1)
+				sh[i], sh[j] = sh[j], sh[i]
+			}
+			all = topoSort(sh)
 		}
 		req := &pluginpb.CodeGeneratorRequest{FileToGenerate: g, Parameter: proto.String("features=protoc+fast,paths=source_relative"), ProtoFile: all}
 		resp, _, err := pluginRun(plugin, req)
@@ -355,13 +365,9 @@ func topoSort(fs []*descriptorpb.FileDescriptorProto) []*descriptorpb.FileDescri
 		}
 		out = append(out, by[n])
 	}
-	var names []string
-	for n := range by {
-		names = append(names, n)
-	}
-	sort.Strings(names)
-	for _, n := range names {
-		visit(n)
+	// roots are visited in the order given (callers shuffle it to get different topological orders)
+	for _, f := range fs {
+		visit(f.GetName())
 	}
 	return out
 }
@@ -433,6 +439,41 @@ func runDesc(cfg *Cfg) {
 		}
 		if t.Info.Proto.ProtoReflect().Type().Descriptor() != md {
 			out.Violate("C19", "descriptor-identity", "Type().Descriptor() differs", replay)
+		}
+		// every field's enum / message type is the descriptor the registry holds for that name — not a placeholder
+		// frozen in while the declaring file was not registered yet (init order across the files of one package)
+		{
+			fs := md.Fields()
+			for i := 0; i < fs.Len(); i++ {
+				fd := fs.Get(i)
+				var dep protoreflect.Descriptor
+				switch {
+				case fd.Enum() != nil:
+					dep = fd.Enum()
+				case fd.IsMap() && fd.MapValue().Message() != nil:
+					dep = fd.MapValue().Message()
+				case fd.IsMap() && fd.MapValue().Enum() != nil:
+					dep = fd.MapValue().Enum()
+				case fd.Message() != nil && !fd.IsMap():
+					dep = fd.Message()
+				}
+				if dep == nil {
+					continue
+				}
+				if dep.IsPlaceholder() {
+					out.Violate("C19", "placeholder-dependency", fmt.Sprintf("field %s: its type %s is a placeholder descriptor (declaring file not resolved)", fd.FullName(), dep.FullName()), replay)
+					continue
+				}
+				if reg, err := protoregistry.GlobalFiles.FindDescriptorByName(dep.FullName()); err != nil || reg != dep {
+					out.Violate("C19", "descriptor-identity", fmt.Sprintf("field %s: its type %s is not the registered descriptor of that name", fd.FullName(), dep.FullName()), replay)
+				}
+			}
+			imps := md.ParentFile().Imports()
+			for i := 0; i < imps.Len(); i++ {
+				if imps.Get(i).IsPlaceholder() {
+					out.Violate("C19", "placeholder-dependency", fmt.Sprintf("file %s: import %s is a placeholder", md.ParentFile().Path(), imps.Get(i).Path()), replay)
+				}
+			}
 		}
 		// enums of this message's file: file-level ones and the ones nested in its messages (at any depth)
 		var allEnums []protoreflect.EnumDescriptor
